@@ -135,4 +135,16 @@ PROPS = {
         assumptions=COMMON + ["a separator plan is used only if the reference lexer re-lexes the rendering to the same tokens "
                               "(conservative empty-gap rule of DESIGN 3.1)"],
     ),
+    "C04": dict(
+        rule="a case is one step of a history of context operations (set_value with 12 values of all 6 types incl. 0- and "
+             "1-tuples, expression assignments with all 9 assignment operators x literals of all types, x = y, reads, "
+             "clear_variables / clear_functions / clear, set_function, builtin toggle, clone-and-continue) applied to a "
+             "real HashMapContext and to the abstract map model; after every step the return value and the complete "
+             "observable state (get_value of every name, both listings sorted, call_function, builtin switch and its "
+             "effect, and every left-behind clone original) are compared; the BFS applies every operation from every "
+             "(abstract state, last-operation kind) key reached within the key budget, replaying each history on a "
+             "fresh context; random histories of 50-300 steps over 5 names extend it; non-trivial = a BFS key or a "
+             "completed random history; distinct = distinct keys / histories",
+        assumptions=COMMON + ["the BFS is complete only up to its key budget per first operation and history length 6"],
+    ),
 }
